@@ -45,7 +45,7 @@ func vgfRunC07(t *rapid.T, kinds []string) {
 
 	c.Key("c07", cfg.String(), m.hist)
 	c.Class("kind:"+cfg.Kind).Class("cache:"+cfg.Cache).Class("maxOpN:%d", cfg.MaxOpN)
-	c.ClassIf(cfg.Bg, "bgQueue").ClassIf(m.nSnap > 0, "snapshotHappened").ClassIf(m.nReopen > 1, "reopenMidHistory")
+	c.ClassIf(cfg.Bg, "bgQueue").ClassIf(cfg.FileLimit, "openFileLimitExceeded").ClassIf(m.nSnap > 0, "snapshotHappened").ClassIf(m.nReopen > 1, "reopenMidHistory")
 	for p := range m.paths {
 		c.Class("path:" + p)
 	}
